@@ -1,5 +1,5 @@
 (* C04 — loops: at most max_iterations supersteps; InfiniteLoopError carries the state so far. *)
-From HG Require Import Base Engine Exec EngineProofs Samples.
+From HG Require Import Base Engine Exec EngineProofs LoopProofs Samples.
 From stdpp Require Import gmap.
 
 (* A run never executes more than max_iterations supersteps (every graph, runner, executor). *)
@@ -28,6 +28,30 @@ Print Assumptions C04_outcomes.
 (* Non-vacuity and the iteration count of a concrete signal-synchronised loop (family L2):
    x := 0; while x < 3: x := x + 1  — three body executions, three gate executions (the first body run passes the default-open gate), x = 3;
    with a budget one superstep short the run fails with InfiniteLoopError. *)
+(* NO REPEATED OR EXTRA ITERATION.  In every state a run reaches (any graph, either runner): when a node controlled by one gate
+   has run before and is scheduled again, the gate's standing decision was computed AFTER that previous run - some input of the
+   node had an older version when the node last ran than when the gate decided - provided the node's inputs are inputs of the
+   gate too (the loop variable feeds both, as in `while P(x): x = body(x)`).  Each pass of the loop body therefore needs a
+   fresh decision of the gate: no second pass on one decision, no pass on an invalidated one. *)
+Theorem C04_fresh_decision_per_pass : forall exec g pv r k st t G gn rt,
+  steps exec r g pv k (init_state pv) st ->
+  In t (ready_list g st) ->
+  controlled_by g (n_name t) = [G] ->
+  In gn (g_nodes g) -> is_gate gn = true -> n_name gn = G ->
+  (forall p, In p (n_inputs t) -> In p (n_inputs gn) /\ ~ In p (n_outputs gn)) ->
+  execs (ready_state g st) !! n_name t = Some rt ->
+  execs (ready_state g st) !! G <> None ->
+  exists rG p, execs (ready_state g st) !! G = Some rG /\ In p (n_inputs t) /\
+    default 0 (dget (r_in rt) p) < default 0 (dget (r_in rG) p).
+Proof. exact rerun_needs_new_decision. Qed.
+Print Assumptions C04_fresh_decision_per_pass.
+
+(* execution records are snapshots of the past: recorded versions never exceed the current ones, along every run *)
+Theorem C04_records_from_the_past : forall exec g pv r k st,
+  steps exec r g pv k (init_state pv) st -> RecLe st.
+Proof. intros exec g pv r k st H. apply (RecLe_steps exec g pv r k _ _ H). apply RecLe_init. Qed.
+Print Assumptions C04_records_from_the_past.
+
 Example C04_loop_runs :
   let r := run_basic loop_ft loop_gt Sync 20 loop [(1%positive, VInt 0)] None in
   res_status r = 0 /\ res_values r = [(1%positive, VInt 3)] /\
